@@ -43,6 +43,16 @@ type c01Scenario struct {
 	// careless URL join would send the probes somewhere else (to "probe-sink:80", which answers 200 to
 	// everything). It is the *target* that has to answer a probe with 2xx.
 	HCPath string `json:"health_check_path,omitempty"`
+	// Gate: the state of the service's request gate when the command is issued: "" (running),
+	// "paused" or "stopped" - the operator paused/stopped the service (at 1.5s, while the client
+	// stream runs) before deploying into it. Resume: when the service is resumed again: "mid" (at a
+	// fixed instant after the issue, typically while the command is still waiting for its targets) or
+	// "after" (700ms after the command returned). What the command owes its new targets - every one
+	// of them answers a probe 2xx first, within the deploy timeout - does not depend on whether the
+	// gate lets requests through at that moment: once the service is resumed, it answers from the
+	// new targets only if all of them passed in time, and from the ones it had before otherwise.
+	Gate   string `json:"gate,omitempty"`
+	Resume string `json:"resume,omitempty"`
 }
 
 const (
@@ -163,6 +173,19 @@ func c01Gen(rng *rand.Rand, idx int) c01Scenario {
 	return sc
 }
 
+// c01GenGated: a scenario of the general family (same target scripts, placements, slots) whose
+// command is issued while the service is paused or stopped. Such a service exists, so it has at
+// least one old target.
+func c01GenGated(rng *rand.Rand, idx int) c01Scenario {
+	sc := c01Gen(rng, idx)
+	if len(sc.Old) == 0 {
+		sc.Old = []string{fmt.Sprintf("old%d-t0:80", idx%7)}
+	}
+	sc.Gate = pick(rng, []string{"stopped", "stopped", "paused"})
+	sc.Resume = pick(rng, []string{"after", "after", "mid"})
+	return sc
+}
+
 func (sc c01Scenario) class(outcome string) string {
 	var shapes []string
 	nontrivial := false
@@ -189,6 +212,19 @@ func (sc c01Scenario) class(outcome string) string {
 		shapes = append(shapes, s)
 	}
 	sort.Strings(shapes)
+	if sc.Gate != "" {
+		// coarser in the script shapes (the ungated family spans those), exact in what is new here
+		shape := "all-pass-at-once"
+		if nontrivial {
+			shape = "some-fail-first"
+		}
+		for _, t := range sc.New {
+			if t.Never {
+				shape = "some-never-pass"
+			}
+		}
+		return fmt.Sprintf("gate=%s|resume=%s|n%d|%s|%s|%s|%s", sc.Gate, sc.Resume, len(sc.New), shape, sc.Placement, sc.Slot, outcome)
+	}
 	if !nontrivial && outcome == "ok" {
 		return ""
 	}
@@ -224,6 +260,17 @@ func TestC01(t *testing.T) {
 			continue
 		}
 		synctest.Test(t, func(t *testing.T) { c01RunSame(t, run, sc) })
+	}
+	// deploys and rollout deploys into a service that is paused or stopped when the command is issued,
+	// and is resumed while the command waits or after it returned
+	ns := run.N(48, 1200)
+	for k := 0; k < run.N(160, 8000); k++ {
+		rng := run.Rand(n + ns + k)
+		sc := c01GenGated(rng, k)
+		if !run.Mine(nl+n+ns+k, sc) {
+			continue
+		}
+		synctest.Test(t, func(t *testing.T) { c01Run(t, run, sc) })
 	}
 }
 
@@ -466,7 +513,33 @@ func c01Run(t *testing.T, run *Run, sc c01Scenario) {
 		}
 	})
 
+	// the gate: closed at 1.5s (the stream is running), before the command is issued
+	var gateCmd, resumeCmd *CmdRec
+	var gmu sync.Mutex
+	if sc.Gate != "" {
+		w.SleepUntil(1500 * time.Millisecond)
+		if sc.Gate == "stopped" {
+			gateCmd = w.Stop(svc, time.Second, "down for maintenance")
+		} else {
+			gateCmd = w.Pause(svc, time.Second, 30*time.Minute) // far beyond the scenario: a held request waits for the resume
+		}
+		if gateCmd.Err != "" || gateCmd.Panic != "" {
+			stop.Store(true)
+			w.Wait()
+			run.Inconclusive("setup %s failed: %s%s", sc.Gate, gateCmd.Err, gateCmd.Panic)
+			return
+		}
+	}
 	w.SleepUntil(2 * time.Second)
+	if sc.Gate != "" && sc.Resume == "mid" {
+		at := 2*time.Second + min(sc.DeployTO/2, 2500*time.Millisecond) + OffArrival
+		w.At(at, func() {
+			c := w.Resume(svc)
+			gmu.Lock()
+			resumeCmd = c
+			gmu.Unlock()
+		})
+	}
 	var cmd *CmdRec
 	if sc.Slot == "rollout" {
 		cmd = w.RolloutDeploy(svc, newNames, sc.DeployTO, time.Second)
@@ -476,14 +549,33 @@ func c01Run(t *testing.T, run *Run, sc c01Scenario) {
 	if sc.Slot == "rollout" && sc.FirstRollout && cmd.Err == "" {
 		w.RolloutSet(svc, 100, nil)
 	}
-	time.Sleep(5 * c01Interval)
+	if sc.Gate != "" && sc.Resume != "mid" {
+		time.Sleep(700 * time.Millisecond)
+		c := w.Resume(svc)
+		gmu.Lock()
+		resumeCmd = c
+		gmu.Unlock()
+	}
+	time.Sleep(5 * c01Interval) // (a "mid" resume is at most 2.5s after the issue: it has happened by the end of this)
 	stop.Store(true)
 	w.Wait()
+	gmu.Lock()
+	resumed := resumeCmd
+	gmu.Unlock()
+	if sc.Gate != "" && (resumed == nil || resumed.Err != "" || resumed.Panic != "") {
+		run.Inconclusive("the %s service was not resumed: %+v", sc.Gate, resumed)
+		return
+	}
 
 	// ---------- oracle ----------
 	run.Eval()
 	fail := func(sig, format string, a ...any) {
-		run.Violate(sig, fmt.Sprintf(format, a...), sc, func() []string { return w.Trace(400) })
+		what := fmt.Sprintf(format, a...)
+		if sc.Gate != "" {
+			sig += ":into-" + sc.Gate + "-service"
+			what += fmt.Sprintf(" [the service was %s at %v, the command was issued at %v and returned at %v, the service was resumed at %v]", sc.Gate, gateCmd.Ret, cmd.Issue, cmd.Ret, resumed.Ret)
+		}
+		run.Violate(sig, what, sc, func() []string { return w.Trace(400) })
 	}
 	if cmd.Panic != "" {
 		fail("panic", "command panicked: %s", cmd.Panic)
@@ -550,7 +642,24 @@ func c01Run(t *testing.T, run *Run, sc c01Scenario) {
 	if sc.Slot == "rollout" && !sc.FirstRollout {
 		oldSet = map[string]bool{r1[0]: true}
 	}
+	// while the gate is closed the service answers nobody from any target: a request that may have met
+	// the closed gate of a stopped service gets the gate's 503 (one that met a paused service's gate
+	// is held and answered after the resume, by whatever the service answers from then). That is the
+	// gate's business, not this property's; everything else is judged as without a gate, and the
+	// "now the new targets answer" clause counts from the later of return and resume.
+	metGate := func(r Resp) bool {
+		return sc.Gate != "" && r.Sent >= gateCmd.Issue-Eps && r.Sent <= resumed.Ret+Eps
+	}
+	effective := cmd.Ret
+	if sc.Gate != "" && resumed.Ret > effective {
+		effective = resumed.Ret
+	}
+	nGate := 0
 	for _, r := range resps {
+		if sc.Gate == "stopped" && metGate(r) && r.Status == 503 && r.Target == "" {
+			nGate++
+			continue
+		}
 		if !ok {
 			// failed: service keeps answering from what it had before (or stays absent)
 			if len(sc.Old) == 0 {
@@ -562,13 +671,16 @@ func c01Run(t *testing.T, run *Run, sc c01Scenario) {
 				fail("failed-deploy-changed-routing", "deploy failed, yet request %s got status %d target=%q (expected one of the previous targets)", r.ID, r.Status, r.Target)
 				return
 			}
-		} else if r.Sent > cmd.Ret+6*Eps && r.Status == 200 && !isNew[r.Target] {
+		} else if r.Sent > effective+6*Eps && r.Status == 200 && !isNew[r.Target] {
 			if sc.Slot == "rollout" && sc.FirstRollout && r.Sent < cmd.Ret+700*time.Millisecond {
 				continue
 			}
 			fail("no-effect", "deploy succeeded at %v but request %s sent at %v was still answered by %q", cmd.Ret, r.ID, r.Sent, r.Target)
 			return
 		}
+	}
+	if sc.Gate != "" {
+		run.Count("client_requests_refused_by_the_closed_gate", nGate)
 	}
 	outcome := "ok"
 	if !ok {
